@@ -3,6 +3,7 @@ Part 1: VM._check_limits memory clause (K1), script-to-script calls do not recur
 nesting is bounded by an explicit check (K3), recursion shapes end in MemoryLimitError (B).
 Part 2 (no residue): K5 compile schemes (contracts/C05_control.py registers C02.schemes) + run-time residue
 monitor over the loop skeletons (B)."""
+from pyvc import structural as _S_
 from pyvc.api import *
 from pyvc import groups
 from pyvc.groups import ob
@@ -22,7 +23,7 @@ def c02_struct(tier="quick", seed=0):
     called = S.called_names(inv)
     out.append(ob("C02.struct.invoke-no-host-recursion", not (called & {"_execute", "_execute_opcode", "_call_callback", "_run_callback", "run"}), "K3",
                   f"_invoke_js_function calls {sorted(called & {'_execute', '_execute_opcode', '_call_callback', '_run_callback', 'run', 'append'})}: it only pushes a frame"))
-    pushes = [c for c in S.calls_to(inv, "append") if "call_stack" in ast.unparse(c.func)]
+    pushes = [c for c in S.calls_to(inv, "append") if "call_stack" in _S_.unparse(c.func)]
     out.append(ob("C02.struct.invoke-pushes-one-frame", len(pushes) == 1, "K3", f"{len(pushes)} call_stack.append in _invoke_js_function"))
     # every nested run loop (host recursion) is entered only through a function that passes the explicit
     # native-depth check: `chain` = the nested dispatcher(s) and their unguarded wrappers; every call site of a
@@ -74,7 +75,7 @@ def c02_struct(tier="quick", seed=0):
                            and isinstance(n.value, ast.Name) and n.value.id == "vm" for n in own)
                 only_runs_expression = f.name == "function_constructor_fn" or all(
                     not (isinstance(n, ast.Call) and isinstance(n.func, ast.Attribute) and isinstance(n.func.value, ast.Name) and n.func.value.id == "vm"
-                         and n.func.attr != "run") for n in own) and "anonymous" in ast.unparse(f)
+                         and n.func.attr != "run") for n in own) and "anonymous" in _S_.unparse(f)
                 if not sets and not only_runs_expression:
                     not_current.append(f.name)
     out.append(ob("C02.struct.nested-vm-made-current", len(users) >= 3 and not not_current, "K3",
@@ -82,7 +83,7 @@ def c02_struct(tier="quick", seed=0):
                   witness="var o={get x(){ return Object.values(o) }}; o.x"))
     try:
         en = S.fn("microjs.vm", "VM._enter_native")
-        src = ast.unparse(en)
+        src = _S_.unparse(en)
         ok = "raise MemoryLimitError" in src and "self.native_depth >= self.MAX_NATIVE_DEPTH" in src
     except KeyError:
         ok = False
@@ -91,12 +92,12 @@ def c02_struct(tier="quick", seed=0):
     md = getattr(VM, "MAX_NATIVE_DEPTH", None)
     out.append(ob("C02.struct.native-depth-band", isinstance(md, int) and 8 <= md <= 64, "K3", f"MAX_NATIVE_DEPTH = {md} (band 8..64: each level costs <= 12 host frames)"))
     # frame state discarded on return; operands dropped on throw
-    d = ast.unparse(S.fn("microjs.vm", "VM._discard_frame_state"))
+    d = _S_.unparse(S.fn("microjs.vm", "VM._discard_frame_state"))
     out.append(ob("C02.struct.return-discards", "del self.stack[frame.bp:]" in d.replace(" :", ":") and "self.exception_handlers.pop()" in d, "K3",
                   "RETURN truncates the operand stack to the frame base and drops the frame's handlers"))
-    t = ast.unparse(S.fn("microjs.vm", "VM._throw"))
+    t = _S_.unparse(S.fn("microjs.vm", "VM._throw"))
     out.append(ob("C02.struct.throw-truncates", "del self.stack[stack_depth:]" in t, "K3", "_throw truncates the operand stack to the depth recorded at TRY_START"))
-    ops = ast.unparse(S.fn("microjs.vm", "VM._execute_opcode"))
+    ops = _S_.unparse(S.fn("microjs.vm", "VM._execute_opcode"))
     out.append(ob("C02.struct.return-calls-discard", ops.count("self._discard_frame_state(popped_frame)") == 2, "K3", "both RETURN opcodes call _discard_frame_state"))
     return out
 
